@@ -286,6 +286,13 @@ class SourceIndex:
                 applied = alpha.normalise_module(module)
                 if applied:
                     self.renamed[rel] = applied
+        self.unhoisted = {}
+        if not os.environ.get('VSTAT_NO_UNHOIST'):
+            from . import unhoist
+            for rel, module in self.modules.items():
+                done = unhoist.normalise_module(module)
+                if done:
+                    self.unhoisted[rel] = done
 
     def mod(self, rel):
         try:
